@@ -276,10 +276,30 @@ func replay(k *kase, i int) string {
 // debugging aid: `vh c09-typegraph --skip=C09-false-reject,…` drops the diffs of these components
 var skip = map[string]bool{}
 
+// addDiff: every unclassified diff goes into the report; of each known-finding class only the first
+// maxPerClass witnesses do (the report keeps 25 diffs: classified ones must never crowd out an
+// unclassified one); all of them are counted in stats and in Extra["classified_diffs_total"].
+const maxPerClass = 3
+
+var perClass = map[string]int{}
+
 func addDiff(rep *vh.Report, d vh.Diff) {
-	if !skip[d.Component] && (d.Class == "" || !skip[d.Class]) {
-		rep.AddDiff(d)
+	if skip[d.Component] || (d.Class != "" && skip[d.Class]) {
+		return
 	}
+	if d.Class != "" {
+		perClass[d.Class]++
+		total := 0
+		for _, n := range perClass {
+			total += n
+		}
+		rep.Extra["classified_diffs_total"] = fmt.Sprint(total)
+		rep.Extra["diffs_of_"+d.Class] = fmt.Sprint(perClass[d.Class])
+		if perClass[d.Class] > maxPerClass {
+			return
+		}
+	}
+	rep.AddDiff(d)
 }
 
 func Run(args []string) {
@@ -325,7 +345,7 @@ func Run(args []string) {
 	}
 	go func() {
 		defer close(reqs)
-		nRandom := vh.Pick(10000, 100000)
+		nRandom := vh.Pick(10000, 250000)
 		for i := 0; i < nRandom; i++ {
 			r := rand.New(rand.NewSource(seed*1000003 + 909 + int64(i)*7919))
 			emit(RandomGraph(r, 6, Options{Missing: true}), r)
